@@ -137,6 +137,16 @@ func serve(req *proto.RunReq) (resp *proto.RunResp) {
 		return
 	}
 	rec.beginExec()
+	if req.HasFirstGlobals {
+		// an earlier pass on the same executor with other global tags; the report is about the next call
+		final := args.Globals
+		args.Globals = req.FirstGlobals
+		rec.stop()
+		_ = c.Execute(context.Background(), gens...)
+		args.Globals = final
+		rec.restartExec()
+		rec.start()
+	}
 	rec.point("phase", "before-execute")
 	// the caller's context can be cancelled at a scheduled event (a CLI reacting to ctrl-c)
 	ctx, cancel := context.WithCancel(context.Background())
@@ -155,6 +165,7 @@ func serve(req *proto.RunReq) (resp *proto.RunResp) {
 			resp.ExecErr = "error"
 		}
 	}
+	resp.Late = rec.executeReturned(rec.firedDo("cancel"))
 	rec.point("phase", "after-execute")
 	rec.stop()
 
